@@ -98,7 +98,8 @@ func c03Instances(h string) func(string) []*Instance {
 }
 
 var c03Labels = map[string]bool{"isvalid-iff-nil": true, "accepted-implies-wellformed": true, "two-last-words-same-entropy-both-accepted": true}
-var c15Labels = map[string]bool{"count-defect-gives-ErrWordLen": true, "checksum-defect-gives-ErrChecksumIncorrect": true,
+var c15Labels = map[string]bool{"first-language-verdict": true, "second-language-accepts-iff-wellformed-in-that-language": true, "second-language-unknown-word-error": true, "first-language-verdict-again": true,
+	"count-defect-gives-ErrWordLen": true, "checksum-defect-gives-ErrChecksumIncorrect": true,
 	"unknown-word-gives-other-error-naming-it": true, "accepted-implies-wellformed": true}
 
 func properties() map[string]*PropertySpec {
@@ -136,7 +137,13 @@ func properties() map[string]*PropertySpec {
 		Stubs:   []string{stubSHA, stubBig, stubStr, stubNFKD, stubOnce},
 	}
 	ps["C15"] = &PropertySpec{ID: "C15", Level: "model_checking",
-		Instances: c03Instances("H_C03"),
+		Instances: func(tier string) []*Instance {
+			out := c03Instances("H_C03")(tier)
+			for _, pr := range [][2]int64{{2, 3}, {3, 2}, {7, 2}} {
+				out = append(out, &Instance{Harness: "H_C13_xlang", Args: []int64{pr[0], pr[1], 12}, Lang: int(pr[0]), MaxWitnesses: 1})
+			}
+			return out
+		},
 		Labels:    c15Labels,
 		Bounds:    ps["C03"].Bounds, Outside: ps["C03"].Outside, Stubs: ps["C03"].Stubs,
 	}
@@ -262,6 +269,9 @@ func properties() map[string]*PropertySpec {
 			}
 			out = append(out, &Instance{Harness: "H_C13_seed", Lang: 2, MaxWitnesses: 1})
 			out = append(out, &Instance{Harness: "H_C04_split", Lang: 2, MaxWitnesses: 1})
+			for _, pr := range [][2]int64{{2, 3}, {3, 2}, {0, 1}, {5, 2}} {
+				out = append(out, &Instance{Harness: "H_C13_xlang", Args: []int64{pr[0], pr[1], 12}, Lang: int(pr[0]), MaxWitnesses: 1})
+			}
 			seqL := []int64{2, 5}
 			if tier == "thorough" {
 				seqL = allLangs()
@@ -1161,7 +1171,8 @@ func c08Post(c *CheckRun) {}
 func c13Post(c *CheckRun) {}
 
 
-var opaquePool = []string{"\ufdfa", "\u3316\u3316\u3316", "\u2057\u2057 x", "pw\ufdfa\u0301", "ｆｕｌｌ　ｗｉｄｔｈ", "caf\u00e9 \u212b", "e\u0301\u0323 a\u0323\u0301", "\u00a0x\u2003y", "\u3392\ufb01\u00bd", "\u0301\u0323lead", "\ud55c\uae00 \u304c\u30ac", "plain ascii", strings.Repeat("\u00e9\u3000", 80)}
+var opaquePool = []string{strings.Repeat("a", 128), strings.Repeat("b", 127) + " " + strings.Repeat("c", 129), strings.Repeat("x", 253) + "e\u0302\u0323 tail", strings.Repeat("y", 509) + "o\u0302\u0323\u0301z",
+	"x\u00a0y", "\u00b5\u00b2\u00bd", "\u00b4secret", " lead and trail ", "\ufdfa", "\u3316\u3316\u3316", "\u2057\u2057 x", "pw\ufdfa\u0301", "ｆｕｌｌ　ｗｉｄｔｈ", "caf\u00e9 \u212b", "e\u0301\u0323 a\u0323\u0301", "\u00a0x\u2003y", "\u3392\ufb01\u00bd", "\u0301\u0323lead", "\ud55c\uae00 \u304c\u30ac", "plain ascii", strings.Repeat("\u00e9\u3000", 80)}
 
 // spellingVariants: alternative concrete choices for opaque-text and spelling inputs of a counterexample.
 func spellingVariants(vals map[string]interface{}) []map[string]interface{} {
